@@ -56,6 +56,8 @@ def contract_scens(ctx, n):
     for _ in range(n):
         s = D.gen_scenario(ctx.rng, bias)
         s['cfg'] = {'cacheOn': s['cfg'].get('cacheOn', False)}
+        for p in s['passes']:
+            p['maxT'] = None          # limits are not part of C02's hypothesis; the sequential reference has none
         out.append(s)
     return out
 
